@@ -82,5 +82,10 @@ example : IXN (default : World) :=
   ⟨⟨List.Pairwise.nil, List.Pairwise.nil, fun p hp => absurd hp List.not_mem_nil, fun p hp => absurd hp List.not_mem_nil,
     fun k hk => absurd hk List.not_mem_nil⟩, fun p hp => absurd hp List.not_mem_nil⟩
 
+/-- "index and queue agree, no bucket empty" holds along every history in which restarts (export → wipe → import) are steps
+    too (`ReachUG`) -/
+theorem index_agreement_survives_restarts (w0 w : World) (h0 : IXN w0) (hr : ReachUG w0 w) : IXN w :=
+  reach_ixn_with_restarts w0 w h0 hr
+
 end C18
 end Alliance
